@@ -14,6 +14,13 @@ Tie (every run):
     `grid contents`, holes) -> real Blueprints.load + reactors.factory, compared field by field with an
     independent evaluator of the parsed document; the stacking / link / placement sub-computations of that
     evaluator are the Lean model's (Drivers/Blueprint.lean) and are compared with the real objects too.
+  * grid blueprints for every supported (geom, symmetry) combination (hex / hex_corners_up x full / third, Cartesian full /
+    quarter, with and without through-centre): text map or explicit list -> saveToStream(tryMap) -> load; the saved map must be
+    the drawing of the class that READING dispatches to (Lean dispatch / saveLattice / readLattice, function level) and reload
+    to the same contents; only drawings the dispatched class itself leaves incomplete count as the known hole findings.
+  * declaration order (run_order): hex blocks with 1-3 nested ducts, liners abutting the clad, wire-wrapped pins that fit or
+    exceed the INNER duct, overlapping solids; every permutation of the component declarations must get the same verdict (the one
+    the dimensions call for) and the same block (Lean verifyBlockDims, theorem verifyBlockDims_perm).
   * inconsistent documents (unknown specifier, overlapping solids, duplicate names, unequal lists, cyclic
     links) must be refused.
 Honest labelling: theorem-backed = ascii-map cell maps and Cartesian round trips, stacking, link DAG,
@@ -1206,6 +1213,35 @@ def run_blueprints(ctx):
                                          tuple((b.getType(), b.getHeight(), b.p.xsType, round(b.getMass(), 9)) for b in a)) for a in rr.core)
                 if sig(r) != sig(r2):
                     fail_few(ctx, "bp-nondeterministic", "construction is deterministic", {"tag": tag})
+            # declaration order of the components inside every block design carries no meaning: same reactor
+            if t % 4 == 1:
+                doc2 = dict(doc)
+                doc2["blocks"] = {}
+                for bn, comps in doc["blocks"].items():
+                    items = list(comps.items())
+                    rng.shuffle(items)
+                    doc2["blocks"][bn] = dict(items)
+                text2 = to_yaml(doc2, text_map)
+                case2 = {"tag": tag, "yaml": text2[:3000], "order": {bn: list(c) for bn, c in doc2["blocks"].items()}}
+                try:
+                    r2 = build(text2)
+                except Exception as e:
+                    r2 = None
+                    fail_few(ctx, "bp-order-changes-verdict", "the order in which a block's components are declared does not change "
+                             "whether the blueprint is accepted", case2, observed=f"{type(e).__name__}: {e}"[:300], expected="built")
+                if r2 is not None:
+                    bysite = lambda rr: {tuple(int(v) for v in a.spatialLocator.indices[:2]): a for a in rr.core}
+                    s1, s2 = bysite(r), bysite(r2)
+                    if s1.keys() != s2.keys():
+                        fail_few(ctx, "bp-order-changes-block", "the constructed model does not depend on the declaration order of components", case2)
+                    else:
+                        for loc in s1:
+                            for b1, b2 in zip(s1[loc], s2[loc]):
+                                if not _sig_close(block_signature(b1), block_signature(b2)):
+                                    fail_few(ctx, "bp-order-changes-block", "the constructed model does not depend on the declaration order "
+                                             "of components", {**case2, "location": loc, "block": b1.getType()})
+                                    break
+                    ctx.count("documents rebuilt with permuted component declarations")
             ctx.case(("bp", tag, text), nontrivial=True,
                      sample={"tag": tag, "assemblies": len(r.core), "blocks": sum(len(a) for a in r.core)} if t < 3 else None)
         # ---- inconsistent documents must be refused
@@ -1363,9 +1399,75 @@ def _flush_bp(ctx, B):
 # =========================================================================== grid blueprints: text -> contents -> saveToStream -> reload
 GEOM_OF = {"cart": ("cartesian", "full"), "third": ("hex", "third periodic"), "full": ("hex", "full"), "tips": ("hex_corners_up", "full")}
 
+# every (geom, symmetry) combination whose lattice map READING is supported, with the map class that reading dispatches
+# to (written from the documentation of asciimaps.asciiMapFromGeomAndDomain: corners-up + full core -> tips-up map, any
+# other hex -> flats-up map of the domain, Cartesian full / quarter -> Cartesian map); compared with the real dispatch
+# function (called with the geometry STRING of the document, as reading does) and with the Lean `dispatch` on every run
+COMBOS = [("hex", "full", "full"), ("hex", "third periodic", "third"), ("hex_corners_up", "full", "tips"),
+          ("hex_corners_up", "third periodic", "third"), ("hex", "full through center assembly", "full"),
+          ("hex_corners_up", "full through center assembly", "tips"),
+          ("cartesian", "full", "cart"), ("cartesian", "full through center assembly", "cart"),
+          ("cartesian", "quarter reflective", "cart"), ("cartesian", "quarter periodic", "cart"),
+          ("cartesian", "quarter reflective through center assembly", "cart"),
+          ("cartesian", "quarter periodic through center assembly", "cart")]
+UNSUPPORTED_COMBOS = [("cartesian", "eighth reflective"), ("cartesian", "eighth periodic through center assembly"),
+                      ("cartesian", "third periodic"), ("hex", "quarter reflective"), ("hex", "eighth periodic"),
+                      ("hex_corners_up", "quarter reflective")]
 
-def grid_yaml(kind, text_map=None, contents=None):
-    geom, sym = GEOM_OF[kind]
+
+def domain_word(sym):
+    return sym.split()[0]
+
+
+def check_dispatch(ctx):
+    """asciiMapFromGeomAndDomain (function level): the class for every (geometry string, domain) against the table above and
+    against the Lean model's `dispatch`; unsupported combinations are refused by both."""
+    from armi.reactor import geometry
+    from armi.utils import asciimaps as am
+    names = {"cart": "AsciiMapCartesian", "third": "AsciiMapHexThirdFlatsUp", "full": "AsciiMapHexFullFlatsUp",
+             "tips": "AsciiMapHexFullTipsUp"}
+    req, exp, cases = [], [], []
+    for geom, sym, kind in COMBOS + [(g, s, None) for g, s in UNSUPPORTED_COMBOS]:
+        case = {"geom": geom, "symmetry": sym}
+        try:
+            cls = am.asciiMapFromGeomAndDomain(geom, geometry.SymmetryType.fromStr(sym).domain).__name__
+        except Exception:
+            cls = None
+        want = names.get(kind)
+        if cls != want:
+            fail_few(ctx, f"ascii-dispatch:{geom}:{domain_word(sym)}", "every supported (geom, symmetry) combination is read with the "
+                     "map class of that geometry and domain", case, observed=cls, expected=want)
+        req.append(f"dispatch {geom} {domain_word(sym)}")
+        exp.append({v: k for k, v in names.items()}.get(cls, "reject"))
+        cases.append(case)
+        ctx.count("ascii map dispatch combinations" if cls else "ascii map dispatch combinations refused")
+        ctx.case(("dispatch", geom, sym), nontrivial=True)
+    out = lean_run("AsciiMap", req)
+    for r, e, c, o in zip(req, exp, cases, out):
+        if o == "bad-op":
+            raise common.Infra(f"AsciiMap driver: bad-op for {r}")
+        if o != e:
+            ctx.disagree("AsciiMap model vs asciiMapFromGeomAndDomain", c, o, e)
+
+
+GRID_Q = []
+
+
+def flush_grid_q(ctx):
+    if not GRID_Q:
+        return
+    out = lean_run("AsciiMap", [q[0] for q in GRID_Q])
+    for (r, e, c, what), o in zip(GRID_Q, out):
+        if o == "bad-op":
+            raise common.Infra(f"AsciiMap driver: bad-op for {r[:200]}")
+        if o != e:
+            ctx.disagree(what, c, o[:600], e[:600])
+    ctx.count("model lines (grid blueprint read / save)", len(GRID_Q))
+    del GRID_Q[:]
+
+
+def grid_yaml(kind, text_map=None, contents=None, combo=None):
+    geom, sym = combo or GEOM_OF[kind]
     out = ["core:", f"    geom: {geom}", f"    symmetry: {sym}"]
     if kind == "cart":
         out.append("    lattice pitch:\n        x: 10.0\n        y: 10.0")
@@ -1379,28 +1481,37 @@ def grid_yaml(kind, text_map=None, contents=None):
     return "\n".join(out) + "\n"
 
 
-def grid_roundtrip(ctx, kind, text_map, contents, tag):
+def grid_roundtrip(ctx, kind, text_map, contents, tag, combo=None):
     """GridBlueprint as the user meets it: load (text map or explicit list), save with tryMap=True, load again.
-    The saved form must describe the same location -> specifier mapping, or fall back to the explicit list."""
+    The saved form must describe the same location -> specifier mapping, or fall back to the explicit list; a saved
+    lattice map must be the text that the map class READING dispatches to (`kind`) draws for these contents."""
     import textwrap
     from armi.reactor.blueprints import Blueprints
     from armi.reactor.blueprints.gridBlueprint import saveToStream
-    case = {"kind": kind, "tag": tag, "map": text_map, "contents": None if contents is None else show_labels(contents)}
+    geom, sym = combo or GEOM_OF[kind]
+    case = {"kind": kind, "geom": geom, "symmetry": sym, "tag": tag, "map": text_map,
+            "contents": None if contents is None else show_labels(contents)}
+    label = f"{geom}, {sym}"
     try:
-        bp = Blueprints.load(io.StringIO("grids:\n" + textwrap.indent(grid_yaml(kind, text_map, contents), "    ")))
+        bp = Blueprints.load(io.StringIO("grids:\n" + textwrap.indent(grid_yaml(kind, text_map, contents, combo), "    ")))
         g = bp.gridDesigns
         g["core"]._readGridContents()
         first = {(k[0], k[1]): v for k, v in g["core"].gridContents.items()}
     except Exception:
-        ctx.count(f"grid blueprint refused on load ({kind})")
+        ctx.count(f"grid blueprint refused on load ({label})")
         return
     if not first:
         return
+    if text_map is not None:
+        # reading the text map is the Lean model's reading (centred for full Cartesian maps)
+        lines = [l.split() for l in text_map.strip().splitlines()]
+        GRID_Q.append((f"readlattice {geom} {domain_word(sym)} {show_lines(lines)}", show_labels(first), case,
+                       "AsciiMap model vs GridBlueprint._readGridContentsLattice"))
     out = io.StringIO()
     try:
         saveToStream(out, bp, full=False, tryMap=True)
     except Exception as e:
-        ctx.count(f"grid blueprint refused on save ({kind}): {type(e).__name__}")
+        ctx.count(f"grid blueprint refused on save ({label}): {type(e).__name__}")
         return
     # contents in the represented domain only (saveToStream documents that it drops the rest)
     try:
@@ -1417,17 +1528,62 @@ def grid_roundtrip(ctx, kind, text_map, contents, tag):
                  observed=f"{type(e).__name__}: {e}"[:200])
         return
     wrote_map = g2["core"].latticeMap is not None
-    ctx.count(f"grid blueprint save/reload ({kind}, {'lattice map' if wrote_map else 'grid contents'})")
-    ctx.case(("grid-rt", kind, tag, text_map, case["contents"]), nontrivial=True)
+    ctx.count(f"grid blueprint save/reload ({label}, {'lattice map' if wrote_map else 'grid contents'})")
+    if len(set(inside.values())) > 1:
+        ctx.count(f"grid blueprint save/reload with several distinct specifiers ({label})")
+    ctx.case(("grid-rt", kind, geom, sym, tag, text_map, case["contents"]), nontrivial=True)
+    from armi.reactor import geometry as _geo
+    s1, s2 = _geo.SymmetryType.fromStr(sym), _geo.SymmetryType.fromStr(g2["core"].symmetry)
+    same_sym = (s1.domain, s1.boundary) == (s2.domain, s2.boundary) and \
+        (domain_word(sym) == "full" or s1.isThroughCenterAssembly == s2.isThroughCenterAssembly)
+    if g2["core"].geom != geom or not same_sym:
+        fail_few(ctx, f"grid-save-geom-changed:{kind}", "a saved grid blueprint keeps its geometry and symmetry", case,
+                 observed=[g2["core"].geom, g2["core"].symmetry])
+    # what the map class that reading dispatches to draws for these contents (index shift of centred Cartesian maps undone)
+    shifted = inside
+    if kind == "cart" and domain_word(sym) == "full" and inside:
+        nx = max(i for i, _ in inside) - min(i for i, _ in inside) + 1
+        ny = max(j for _, j in inside) - min(j for _, j in inside) + 1
+        shifted = {(i + int(nx / 2), j + int(ny / 2)): v for (i, j), v in inside.items()}
+    ans, own_text, own_back = impl_write(kind, shifted)
+    own_complete = own_text is not None and own_back is not None and data_of(own_back) == shifted
+    saved_lines = None
+    if wrote_map:
+        saved_lines = [l.split() for l in str(g2["core"].latticeMap).strip().splitlines()]
+        own_lines = None if own_text is None else [l.split() for l in own_text.strip().splitlines()]
+        if own_lines is not None and saved_lines != own_lines:
+            fail_few(ctx, f"grid-saved-map-not-of-reading-class:{kind}", "the written lattice map is the text the map class that "
+                     "reading dispatches to draws for the contents", case, observed=str(g2["core"].latticeMap)[:600],
+                     expected=own_text[:600])
+    # saveToStream (function level): the Lean model's lattice lines for the contents in the domain, or its refusal
+    if inside and all(" " not in v and v for v in inside.values()):
+        GRID_Q.append((f"savelattice {geom} {domain_word(sym)} [" + ",".join(f"{i}:{j}:{t}" for (i, j), t in inside.items()) + "]",
+                       show_lines(saved_lines) if wrote_map else "reject", case, "AsciiMap model vs gridBlueprint.saveToStream"))
     if second != inside:
-        mech = classify_incomplete(kind, inside, str(g2["core"].latticeMap)) if wrote_map else None
+        # only a drawing that the dispatched class itself leaves incomplete can be one of the known hole findings
+        mech = classify_incomplete(kind, shifted, str(g2["core"].latticeMap)) if (wrote_map and not own_complete) else None
         key = f"grid-save-reload-differs:{kind}:{mech or 'unexplained'}"
         fail_few(ctx, key, "a lattice map read, written and read again gives the same indexed contents", case,
                  observed={"saved": out.getvalue()[:600], "reloaded": show_labels(second)}, expected=show_labels(inside))
 
 
+def asym_contents(kind, n, rng, quarter=False):
+    """Contents over a complete outline with several distinct specifiers placed asymmetrically (no two cells related by a
+    rotation / reflection of the outline are forced to agree): NOT invariant under a flats-up <-> tips-up relayout."""
+    cells = outline(kind, n)
+    labs = list(LABELS)
+    cont = {c: rng.choice(labs) for c in cells}
+    if len(cells) >= 2:
+        # make sure at least two specifiers occur and that the map differs from its transpose / mirror image
+        a, b = rng.sample(cells, 2)
+        cont[a], cont[b] = "A", "B"
+    return cont
+
+
 def run_grids(ctx):
     rng = ctx.rng
+    del GRID_Q[:]
+    check_dispatch(ctx)
     for kind in KINDS:
         for n in range(0, ctx.pick(4, 8)):
             cells = outline(kind, n)
@@ -1440,6 +1596,29 @@ def run_grids(ctx):
                 ans, text, back = impl_write(kind, cont)
                 if text is not None and back is not None and data_of(back) == cont:
                     grid_roundtrip(ctx, kind, text, None, f"map-{n}-{variant}")
+    # every supported (geom, symmetry) combination: complete outlines with asymmetric contents, as a text map and as an
+    # explicit list (tryMap=True), saved and read again
+    for geom, sym, kind in COMBOS:
+        quarter = domain_word(sym) == "quarter"
+        for n in range(1, ctx.pick(5, 7)):
+            for rep in range(ctx.pick(3, 6)):
+                cont = asym_contents(kind, n, rng)
+                if kind == "cart" and rng.random() < 0.5:
+                    # rectangular, not square
+                    w = rng.randint(1, n + 1)
+                    cont = {c: v for c, v in cont.items() if c[0] < w} if rng.random() < 0.5 else {c: v for c, v in cont.items() if c[1] < w}
+                if kind == "cart" and domain_word(sym) == "full":
+                    nx = max(i for i, _ in cont) + 1
+                    ny = max(j for _, j in cont) + 1
+                    listed = {(i - int(nx / 2), j - int(ny / 2)): v for (i, j), v in cont.items()}
+                else:
+                    listed = cont
+                grid_roundtrip(ctx, kind, None, listed, f"combo-list-{n}-{rep}", combo=(geom, sym))
+                ans, text, back = impl_write(kind, cont)
+                if text is not None and back is not None and data_of(back) == cont:
+                    grid_roundtrip(ctx, kind, text, None, f"combo-map-{n}-{rep}", combo=(geom, sym))
+    for geom, sym in UNSUPPORTED_COMBOS:
+        grid_roundtrip(ctx, "cart" if geom == "cartesian" else "full", "A B\nC D\n", None, "unsupported-combination", combo=(geom, sym))
     # a completely empty interior row / trailing rows; pin map with rings 0 and 2 only
     for text in ("- A B C\n- D E F\n- A A B\n- C C D\n", "A B C D E -\nA B C D E -\nF F F F F -\n", "- - -\nA B C\nD E F\nA A A\n",
                  "A B\nC D\n- -\n", "- A\n- B\n", "A B -\nC D -\n"):
@@ -1449,6 +1628,294 @@ def run_grids(ctx):
     grid_roundtrip(ctx, "cart", None, {(0, 0): "A", (1, 0): "B", (0, 2): "C", (1, 2): "D"}, "cart-empty-interior-row-list")
     for kind in ("tips", "full"):
         grid_roundtrip(ctx, kind, None, {c: "P" for c in hex_cells(2) if hexdist(*c) in (0, 2)}, "rings-0-and-2-only")
+    flush_grid_q(ctx)
+
+
+# =========================================================================== declaration order of a block's components
+def _rings_for(npins):
+    """Rings of a hex pin lattice needed for npins positions (1, 7, 19, ...): smallest n with 3n(n-1)+1 >= npins."""
+    n = 0
+    while (3 * n * (n - 1) + 1 if n else 0) < npins:
+        n += 1
+    return n
+
+
+def gen_pin_block(rng):
+    """A hex block with wire-wrapped pins inside one to three nested hexagonal ducts, optional solid liners abutting the clad,
+    optionally a second clad; the pin bundle either fits the INNER duct or exceeds it by more than the tolerance while still
+    fitting the next duct.  Returns (components in canonical order, facts)."""
+    import math
+    npins = rng.choice([1, 7, 19, 37, 61, 91, 12, 20, 40])
+    fod = rng.randint(40, 70) / 100.0
+    cth = rng.randint(3, 6) / 100.0
+    two_clads = False      # (a fuel block with two clads is refused by armi elsewhere: no unique clad; the branch is exercised on built blocks below)
+    nliner = rng.choice([0, 0, 1, 2])
+    lth = 0.02
+    cid = round(fod + 0.04 + 2 * lth * nliner, 4)
+    cod = round(cid + 2 * cth, 4)
+    has_wire = (not two_clads) and rng.random() < 0.9      # a wire around two clads has no defined pin pitch
+    wod = rng.randint(5, 15) / 100.0
+    outer_pin = round(cod + 0.06, 4) if two_clads else cod
+    nr = _rings_for(npins)
+    bundle = math.sqrt(3.0) * (nr - 1) * (cod + wod) + cod + 2 * wod
+    mode = rng.choice(["fits", "exceeds-inner", "exceeds-inner", "overlap-liner"]) if not two_clads and has_wire else rng.choice(["fits", "exceeds-inner"])
+    nducts = rng.choice([1, 2, 2, 2, 3])
+    if mode == "exceeds-inner":
+        ip0 = round(bundle - rng.randint(5, 30) / 100.0, 2)
+    else:
+        ip0 = round(bundle + rng.randint(5, 40) / 100.0, 2)
+    if mode != "exceeds-inner":
+        ip0 = max(ip0, round(outer_pin + 2 * wod + 0.05, 2))
+    T = rng.choice([20.0, 25.0])
+    comps = []
+
+    def circle(name, mat, i, o, **kw):
+        comps.append((name, dict(shape="Circle", material=mat, Tinput=T, Thot=T, id=i, od=o, mult=float(npins), **kw)))
+    circle("fuel", "UZr", 0.0, fod)
+    inner_names = [f"liner{k + 1}" for k in range(nliner)]
+    circle("bond", "Sodium", "fuel.od", f"{inner_names[0]}.id" if inner_names else "clad.id")
+    x = round(cid - 2 * lth * nliner, 4)
+    for k, ln in enumerate(inner_names):
+        # solid liners abutting each other and the clad (od of one = id of the next, numerically)
+        lo = round(x + 2 * lth, 4)
+        if mode == "overlap-liner" and k == 0:
+            # a solid liner LINKED between the fuel and the next solid, squeezed to negative area: overlapping solids
+            comps.append((ln, dict(shape="Circle", material="HT9", Tinput=T, Thot=T, id="fuel.od", od=round(fod - 0.1, 4), mult=float(npins))))
+        else:
+            circle(ln, "HT9", x, lo)
+        x = lo
+    if mode == "overlap-liner" and not inner_names:
+        comps[-1] = ("bond", dict(shape="Circle", material="HT9", Tinput=T, Thot=T, id="fuel.od", od="clad.id", mult=float(npins)))
+        cid = round(fod - 0.1, 4)
+    circle("clad", "HT9", cid, cod)
+    if two_clads:
+        circle("clad2", "HT9", cod, outer_pin)
+    if has_wire:
+        comps.append(("wire", dict(shape="Helix", material="HT9", Tinput=T, Thot=T, axialPitch=30.0,
+                                   helixDiameter=round(outer_pin + wod, 4), id=0.0, od=wod, mult=float(npins))))
+    comps.append(("coolant", dict(shape="DerivedShape", material="Sodium", Tinput=T, Thot=T)))
+    ducts = []
+    ip = ip0
+    for k in range(nducts):
+        op = round(ip + rng.choice([0.2, 0.3]), 2)
+        name = ["inner duct", "duct", "outer duct"][k] if nducts == 3 else (["inner duct", "outer duct"][k] if nducts == 2 else "duct")
+        ducts.append((name, ip, op))
+        comps.append((name, dict(shape="Hexagon", material="HT9", Tinput=T, Thot=T, ip=ip, op=op, mult=1.0)))
+        nxt = round(op + rng.choice([0.0, 0.1, 0.4]), 2)       # abutting or separated ducts
+        if k == 0 and mode == "exceeds-inner":
+            nxt = max(nxt, round(bundle + 0.2, 2))             # the bundle still fits inside the next duct
+        ip = nxt
+    last = ducts[-1][0]
+    comps.append(("intercoolant", dict(shape="Hexagon", material="Sodium", Tinput=T, Thot=T, ip=f"{last}.op", op=round(ducts[-1][2] + 0.3, 2), mult=1.0)))
+    if mode == "overlap-liner":
+        expect = "refused"
+    elif two_clads or not has_wire:
+        expect = "built"          # verifyBlockDims cannot tell what the block looks like / no wire: nothing to check
+    else:
+        expect = "refused" if mode == "exceeds-inner" else "built"
+    facts = dict(npins=npins, rings=nr, bundle=bundle, mode=mode, inner_ip=ducts[0][1], ducts=ducts, two_clads=two_clads,
+                 has_wire=has_wire, expect=expect, cod=cod, wod=wod)
+    return comps, facts
+
+
+def pin_block_yaml(comps):
+    out = [NUCLIDE_FLAGS.rstrip("\n"), "blocks:", "    fuel: &block_fuel"]
+    for name, c in comps:
+        out.append(f"        {name}:")
+        for k, v in c.items():
+            out.append(f"            {k}: {v}")
+    out.append("assemblies:\n    fuel:\n        specifier: IC\n        blocks: [*block_fuel]\n        height: [25.0]\n"
+               "        axial mesh points: [1]\n        xs types: [A]")
+    return "\n".join(out) + "\n"
+
+
+def build_block(text):
+    from armi import settings
+    from armi.reactor import blueprints
+    cs = settings.Settings()
+    bp = blueprints.Blueprints.load(io.StringIO(text))
+    bp._prepConstruction(cs)
+    return bp.assemblies["fuel"][0]
+
+
+def block_signature(b):
+    sig = {}
+    for c in b:
+        dims = []
+        for k in sorted(c.DIMENSION_NAMES):
+            try:
+                v = c.getDimension(k, cold=True)
+            except Exception:
+                v = None
+            dims.append((k, None if v is None else float(v)))
+        sig[c.name] = (type(c).__name__, c.material.name, float(c.inputTemperatureInC), float(c.temperatureInC), tuple(dims),
+                       float(c.getArea()), str(c.p.flags))
+    try:
+        gap = b.getPinToDuctGap(cold=True)
+    except Exception:
+        gap = None
+    try:
+        order = [c.name for c in sorted(b)]
+    except Exception:
+        order = sorted(c.name for c in b)
+    pitch = b.getPitch()
+    extra = {"sorted": order, "gap": gap, "pitch": tuple(pitch) if isinstance(pitch, (tuple, list)) else pitch, "mass": b.getMass(),
+             "type": type(b).__name__, "npins": b.p.nPins}
+    return sig, extra
+
+
+def _sig_close(a, b):
+    import math
+    if type(a) is not type(b):
+        return False
+    if isinstance(a, float):
+        return math.isclose(a, b, rel_tol=1e-11, abs_tol=1e-12)
+    if isinstance(a, (tuple, list)):
+        return len(a) == len(b) and all(_sig_close(x, y) for x, y in zip(a, b))
+    if isinstance(a, dict):
+        return a.keys() == b.keys() and all(_sig_close(a[k], b[k]) for k in a)
+    return a == b
+
+
+def run_order(ctx):
+    """Declaration order of a block's components carries no meaning: every permutation of the component declarations gets
+    the same accept / refuse verdict (the verdict the dimensions call for: a wire-wrapped pin bundle larger than the INNER
+    duct's inner flat-to-flat by more than the tolerance is refused, overlapping solids are refused) and, when accepted,
+    the same constructed block. Model: Blueprint.verifyBlockDims (theorem verifyBlockDims_perm)."""
+    import math
+    from armi.utils import hexagon
+    rng = ctx.rng
+    B = BP(ctx)
+    for n in list(range(0, 130)) + [169, 217, 271, 272, 331, 1000]:
+        B.send(f"numrings {n}", str(hexagon.numRingsToHoldNumCells(n)), {"numCells": n})
+    for n in (1, 7, 19, 37, 61, 91, 127, 169, 217, 271):
+        if hexagon.numRingsToHoldNumCells(n) != _rings_for(n):
+            fail_few(ctx, "numrings-complete-lattice", "a complete hex lattice of n rings holds 3n(n-1)+1 pins", {"numCells": n},
+                     observed=hexagon.numRingsToHoldNumCells(n), expected=_rings_for(n))
+    with common.scratch_dir("c18o-"):
+        for t in range(ctx.pick(40, 300)):
+            comps, facts = gen_pin_block(rng)
+            if t < 3:
+                # always present: two ducts, one clad, one wire, bundle larger than the inner duct but inside the outer one
+                for _ in range(200):
+                    if facts["mode"] == "exceeds-inner" and len(facts["ducts"]) == 2 and facts["has_wire"] and facts["npins"] > 1:
+                        break
+                    comps, facts = gen_pin_block(rng)
+            names = [n for n, _ in comps]
+            orders = [list(range(len(comps))), list(reversed(range(len(comps))))]
+            # ducts outermost-first, everything else in place
+            dpos = [k for k, (n, c) in enumerate(comps) if c.get("shape") == "Hexagon" and "duct" in n]
+            if len(dpos) > 1:
+                o = list(range(len(comps)))
+                for a, b in zip(dpos, reversed(dpos)):
+                    o[a] = b
+                orders.append(o)
+            for _ in range(ctx.pick(2, 5)):
+                o = list(range(len(comps)))
+                rng.shuffle(o)
+                orders.append(o)
+            results = []
+            for o in orders:
+                perm = [comps[k] for k in o]
+                text = pin_block_yaml(perm)
+                case = {"order": [n for n, _ in perm], "facts": {k: (round(v, 4) if isinstance(v, float) else v) for k, v in facts.items()},
+                        "yaml": text, "yaml_canonical": pin_block_yaml(comps)}
+                try:
+                    b = build_block(text)
+                    verdict, sig, msg = "built", block_signature(b), None
+                except Exception as e:
+                    verdict, sig, msg = "refused", None, f"{type(e).__name__}: {e}"[:160]
+                results.append((o, verdict, sig, msg, case))
+                ctx.count(f"pin blocks {verdict} ({facts['mode']}, {len(facts['ducts'])} duct(s){', 2 clads' if facts['two_clads'] else ''}{'' if facts['has_wire'] else ', no wire'})")
+                if verdict != facts["expect"]:
+                    if facts["expect"] == "refused":
+                        key = "bp-inconsistent-accepted:overlapping-solids" if facts["mode"] == "overlap-liner" else "bp-inconsistent-accepted:pins-exceed-inner-duct"
+                        fail_few(ctx, key, "blueprints that are inconsistent (overlapping solid components) are refused with an error, in whatever "
+                                 "order the components are declared", case, observed="built", expected="refused")
+                    else:
+                        fail_few(ctx, "bp-wellformed-refused", "a well-formed blueprint builds", case, observed=msg)
+                # the model on the components in THIS order
+                def tok(n, c):
+                    w = n.split()
+                    isd, isc, isw = "duct" in w, n.rstrip("0123456789") == "clad", n == "wire"
+                    q = lambda v: str(common.rat(v)) if isinstance(v, float) else "0"
+                    return (f"{tilde(n)}:{'T' if isd else 'F'}:{'T' if isc else 'F'}:{'T' if isw else 'F'}:{q(c.get('op'))}:{q(c.get('ip'))}:"
+                            f"{q(c.get('od')) if (isc or isw) else '0'}:{int(c.get('mult', 0) or 0)}")
+                if facts["mode"] != "overlap-liner":
+                    want_v = {"built": "accept", "refused": "refuse"}[verdict]
+                    if facts["two_clads"]:
+                        want_v = "skipped"
+                    elif not facts["has_wire"]:
+                        want_v = "nogap"
+                    inner = tilde(sorted(b)[[c.name for c in sorted(b)].index(
+                        [c.name for c in sorted(b) if "duct" in c.name.split()][0])].name) if verdict == "built" else tilde(facts["ducts"][0][0])
+                    rings = "-" if facts["two_clads"] else str(facts["rings"])
+                    B.send("pinduct [" + ",".join(tok(n, c) for n, c in perm) + "]", f"{want_v} duct={inner} rings={rings}", case)
+                if verdict == "built":
+                    # linked dimensions of the round components in THIS declaration order (Lean resolve / theorem resolve_perm)
+                    rq, ex = [], []
+                    for n_, c_ in perm:
+                        if c_.get("shape") != "Circle":
+                            continue
+                        parts = [n_]
+                        for dk in ("id", "od"):
+                            v = c_[dk]
+                            parts.append(f"{dk}=@{v}" if isinstance(v, str) else f"{dk}={common.rat(v)}")
+                            ex.append(f"{n_}.{dk}={common.rat(dict(sig[0][n_][4])[dk])}")
+                        rq.append(":".join(parts))
+                    B.send("dims [" + ",".join(rq) + "]", "[" + ",".join(ex) + "]", case)
+                ctx.case(("order", t, tuple(o), text), nontrivial=True,
+                         sample={"order": case["order"], "verdict": verdict, "mode": facts["mode"]} if t < 2 and o is orders[1] else None)
+            # the "too complicated" branches of verifyBlockDims on the built block itself: a second clad / second wire added in place
+            if results[0][1] == "built" and facts["has_wire"]:
+                import copy as _copy
+                perm = list(comps)
+                b = build_block(pin_block_yaml(perm))
+                which = rng.choice(["clad", "wire"])
+                extra = _copy.deepcopy(b.getComponentByName(which))
+                extra.name = which + "2"
+                b.add(extra)
+                try:
+                    b.verifyBlockDims()
+                    got = "skipped"
+                except Exception as e:
+                    got = f"refuse ({type(e).__name__})"
+                def tok2(n, c, nm=None):
+                    w = n.split()
+                    isd, isc, isw = "duct" in w, n == "clad", n == "wire"
+                    q = lambda v: str(common.rat(v)) if isinstance(v, float) else "0"
+                    return (f"{tilde(nm or n)}:{'T' if isd else 'F'}:{'T' if isc else 'F'}:{'T' if isw else 'F'}:{q(c.get('op'))}:{q(c.get('ip'))}:"
+                            f"{q(c.get('od')) if (isc or isw) else '0'}:{int(c.get('mult', 0) or 0)}")
+                cd = dict(comps)
+                B.send("pinduct [" + ",".join(tok2(n, c) for n, c in perm) + "," + tok2(which, cd[which], which + "2") + "]",
+                       f"{got} duct={tilde(facts['ducts'][0][0])} rings={'-' if which == 'clad' else facts['rings']}",
+                       {"facts": str(facts)[:300], "added": which + "2"})
+                ctx.count(f"verifyBlockDims with a second {which}: {got}")
+            # same verdict, same block
+            v0 = results[0]
+            for o, verdict, sig, msg, case in results[1:]:
+                if verdict != v0[1]:
+                    fail_few(ctx, "bp-order-changes-verdict", "the order in which a block's components are declared does not change "
+                             "whether the blueprint is accepted", case, observed=f"{verdict} ({msg})", expected=f"{v0[1]} in canonical order ({v0[3]})")
+                elif verdict == "built" and not _sig_close(sig, v0[2]):
+                    diff = [k for k in sig[0] if not _sig_close(sig[0][k], v0[2][0].get(k))] + [k for k in sig[1] if not _sig_close(sig[1][k], v0[2][1][k])]
+                    fail_few(ctx, "bp-order-changes-block", "the constructed block does not depend on the declaration order of its components",
+                             case, observed=diff[:6])
+            # the built block against the document (independent reading of the numbers)
+            if v0[1] == "built":
+                sig, extra = v0[2]
+                for n, c in comps:
+                    got = dict(sig[n][4])
+                    for k in ("ip", "op", "id", "od"):
+                        if isinstance(c.get(k), float) and not math.isclose(got.get(k, float("nan")), c[k], rel_tol=1e-12, abs_tol=1e-12):
+                            fail_few(ctx, "bp-component-dimension", "components have the specified cold dimensions", {"component": n, "dim": k,
+                                     "yaml": v0[4]["yaml"]}, observed=got.get(k), expected=c[k])
+                if extra["gap"] is not None and facts["has_wire"] and not facts["two_clads"]:
+                    want = (facts["inner_ip"] - facts["bundle"]) / 2.0
+                    if not math.isclose(extra["gap"], want, rel_tol=1e-9, abs_tol=1e-9):
+                        fail_few(ctx, "bp-pin-duct-gap-not-innermost", "the pin-to-duct gap is measured against the innermost duct", v0[4],
+                                 observed=extra["gap"], expected=want)
+    B.flush("Blueprint model vs HexBlock.verifyBlockDims / numRingsToHoldNumCells (declaration order)")
 
 
 # =========================================================================== flags from names
@@ -1716,6 +2183,7 @@ def run(ctx):
     with mute():
         run_ascii(ctx)
         run_grids(ctx)
+        run_order(ctx)
         run_blueprints(ctx)
         run_flags(ctx)
         run_isotopics(ctx)
@@ -1732,7 +2200,17 @@ def search(ctx, disagreements, broken):
             c = d.case if isinstance(d.case, dict) else {}
             c = c.get("case", c) if "kind" not in c else c
             kind = c.get("kind")
-            if kind in KINDS and "contents" in c:
+            if kind in KINDS and "geom" in c:
+                cont = None
+                if c.get("contents"):
+                    cont = {}
+                    for it in [x for x in c["contents"].strip("[]").split(",") if x]:
+                        i, j, t = it.split(":")
+                        cont[(int(i), int(j))] = t
+                with common.scratch_dir("c18s-"):
+                    grid_roundtrip(sub, kind, c.get("map"), cont, "search", combo=(c["geom"], c["symmetry"]))
+                del GRID_Q[:]
+            elif kind in KINDS and c.get("contents"):
                 items = [x for x in c["contents"].strip("[]").split(",") if x]
                 base = {}
                 for it in items:
@@ -1749,7 +2227,10 @@ def search(ctx, disagreements, broken):
                     if res and res[1]:
                         A.read(kind, [l.split() for l in res[1].strip().splitlines()], "search-complete")
         A.req, A.impl, A.cases = [], [], []
-        if any("request" in (d.case if isinstance(d.case, dict) else {}) for d in disagreements):
+        reqs = [str((d.case if isinstance(d.case, dict) else {}).get("request", "")) for d in disagreements]
+        if any(r.startswith(("pinduct", "numrings")) for r in reqs):
+            run_order(sub)
+        if any(r and not r.startswith(("pinduct", "numrings")) for r in reqs):
             run_blueprints(sub)
     return [Failure(f.key, f.clause, f.case, f.observed, f.expected, "found by the directed search") for f in sub.failures]
 
@@ -1758,7 +2239,42 @@ def replay(ctx, payload):
     case = payload.get("case") or {}
     res = []
     with mute():
-        if case.get("kind") in KINDS and "contents" in case:
+        if case.get("kind") in KINDS and "geom" in case:
+            # grid blueprint load -> saveToStream -> load: re-run the oracle on the recorded map / contents
+            sub = common.Ctx(ctx.prop, ctx.tier, ctx.seed)
+            cont = None
+            if case.get("contents"):
+                cont = {}
+                for it in [x for x in case["contents"].strip("[]").split(",") if x]:
+                    i, j, t = it.split(":")
+                    cont[(int(i), int(j))] = t
+            del GRID_Q[:]
+            with common.scratch_dir("c18r-"):
+                grid_roundtrip(sub, case["kind"], case.get("map"), cont, "replay", combo=(case["geom"], case["symmetry"]))
+            del GRID_Q[:]
+            known = {f["key"] for f in common.load_findings()["finding"] if f["property"] == ctx.prop}
+            for f in sub.failures:
+                if f.key == payload.get("key") or f.key not in known:
+                    res.append({"key": f.key, "observed": f.observed, "expected": f.expected})
+        elif "yaml" in case and "systems:" not in case["yaml"]:
+            # a single block design (declaration-order stream)
+            def verdict(text):
+                try:
+                    return "built", block_signature(build_block(text))
+                except Exception as e:
+                    return "refused", f"{type(e).__name__}: {e}"[:200]
+            with common.scratch_dir("c18r-"):
+                v, sig = verdict(case["yaml"])
+                key = payload.get("key", "")
+                if key.startswith("bp-inconsistent-accepted") and v == "built":
+                    res.append({"accepted": True})
+                elif key == "bp-wellformed-refused" and v == "refused":
+                    res.append({"refused": sig})
+                elif key.startswith("bp-order-changes") and case.get("yaml_canonical"):
+                    v0, sig0 = verdict(case["yaml_canonical"])
+                    if v0 != v or (v == "built" and not _sig_close(sig, sig0)):
+                        res.append({"this order": v, "canonical order": v0})
+        elif case.get("kind") in KINDS and "contents" in case:
             base = {}
             for it in [x for x in case["contents"].strip("[]").split(",") if x]:
                 i, j, t = it.split(":")
